@@ -1725,12 +1725,20 @@ start_member (GMarkupParseContext *context,
   const gchar *value;
   const gchar *deprecated;
   const gchar *c_identifier;
+  const gchar *introspectable;
   GIrNodeEnum *enum_;
   GIrNodeValue *value_;
 
   if (!(strcmp (element_name, "member") == 0 &&
 	ctx->state == STATE_ENUM))
     return FALSE;
+
+  introspectable = find_attribute ("introspectable", attribute_names, attribute_values);
+  if (introspectable && atoi (introspectable) == 0)
+    {
+      state_switch (ctx, STATE_PASSTHROUGH);
+      return TRUE;
+    }
 
   name = find_attribute ("name", attribute_names, attribute_values);
   value = find_attribute ("value", attribute_names, attribute_values);
